@@ -410,7 +410,10 @@ def judge_writer(chk, c, evs, fb):
     except oas_codec.OasError as e:
         chk.violation('C04/writer/strict-decode', 'the strict decoder rejects the file gdstk wrote: %s [flags 0x%02x level %d]' % (e, m['flags'], m['level']), rp)
         return
-    exp = oasmodel.from_spec(m['lib'])
+    outl = c02.outlines_of(chk, c, evs)
+    if outl is None:
+        return
+    exp = oasmodel.from_spec(m['lib'], outl)
     if exp.get('ties'):
         chk.cov('writer_cases_skipped_ties')
         return
